@@ -16,7 +16,7 @@ import (
 )
 
 var classes = []string{"inorder", "permuted", "dup", "foreign", "late", "never", "mixed", "close", "badframe", "garbage",
-	"refuse", "blackhole1", "blackholeK", "queuefull", "dupburst", "giveup"}
+	"refuse", "blackhole1", "blackholeK", "queuefull", "dupburst", "giveup", "crowd"}
 
 func pickInt(r *rand.Rand, xs ...int) int { return xs[r.Intn(len(xs))] }
 
@@ -40,6 +40,8 @@ func plan(seed int64, classes []string, per int, maxK int) []*scenario {
 			if sc.K > 16 {
 				sc.K = 16
 			}
+		case "crowd": // as many callers as allowed, all in flight at once, answered in a random order, some twice
+			sc.K = ks[len(ks)-1]
 		case "dupburst":
 			if sc.K < 8 {
 				sc.K = 8
@@ -124,6 +126,12 @@ func plan(seed int64, classes []string, per int, maxK int) []*scenario {
 				}
 				if r.Intn(4) > 0 {
 					rs = append(rs, reply{r.Intn(5), "own"})
+				}
+			case "crowd":
+				sc.Script.Barrier = sc.K
+				rs = []reply{{r.Intn(20), "own"}}
+				if r.Intn(10) == 0 {
+					rs = append(rs, reply{r.Intn(20), "own"})
 				}
 			case "giveup":
 				rs = []reply{{sc.Eff[c] + 15, "own"}}
